@@ -30,6 +30,15 @@ CHECKS = {
  'C07': dict(level='exploration', technique='runtime monitor: differential against an independent transcription of RFC 3986 5.2/5.3 (validated on the RFC 5.4 tables and urljoin) over systematic and random (base, reference) pairs, chains, base-immutability and normalize-idempotence monitors',
    text='Every reference built from up to 4 (5 in thorough) segments of {., .., empty, a, b}, path-absolute and path-relative, +-query/fragment, against 24 base shapes, plus random longer references, query-only/fragment-only/empty and absolute references, chains of 2-4 navigations compared with step-by-step resolution; the base object is compared before/after; normalize() is applied twice.',
    note='Comparison modulo RFC 3986 6.2.3 equivalences (case of scheme/host, empty path == "/", default port). Network-path references, scheme-only references and "?" are outside the statement and not generated.', ref='3/C07'),
+ 'C08': dict(level='exploration', technique='runtime monitor: differential against a memoised recursive rebuild with identity-aware structural fingerprints; input fingerprint before/after; research() paths replayed through get_path',
+   text='Random object graphs over the five container kinds (hashability respected) with deliberate aliasing and back-edges, and visit programs from a small decision-list DSL (keep/drop/rewrite) are given to remap and to a 30-line recursive rebuild; outputs are compared by a fingerprint that encodes types, keys, order, leaf values and the sharing pattern of containers; default callbacks must give an equal deep copy sharing no mutable container; the input fingerprint must not change; every nested research() hit must be retrievable by get_path.',
+   note='For cycles passing through a tuple only termination and non-mutation are required. research() reports the root under (None,), which is skipped.', ref='3/C08'),
+ 'C10': dict(level='exploration', technique='runtime monitor: both queue classes driven side by side against a reference queue; BarrelList multi-sublist states forced by a very large queue and by lowering its tuning knob; BarrelList vs list differential on the operations the queue uses',
+   text='HeapPriorityQueue and SortedPriorityQueue run the same generated histories (add/re-add/remove/pop/peek/len, ties dominate) and every result is compared with a reference (max priority, earliest arrival); one 25k-60k-entry history per shard with default tuning and many histories with BarrelList._size_factor lowered reach split backends; insert/pop/index reads of BarrelList are compared with list.',
+   note='remove() of an absent task must raise KeyError in both classes. BarrelList methods the queue never calls (no-argument pop, sort, slicing) are outside this property.', ref='3/C10'),
+ 'C11': dict(level='exploration', technique='runtime monitor: lock-step plain-list + Python-set reference with full read-out after every step; threshold-crossing long histories',
+   text='Histories interleaving list-style and set-style operations (all operand types, 0-3 operands) are applied to IndexedSet and to a list of distinct items; after every step iteration, len, membership, every valid index, positive-step slices, index/count/reversed are compared, and every set-algebra result is compared for content, order and type; medium (48-400 items) and long (4000-10000) histories keep the dead-interval table alive across the 1/8 and 384-interval compaction thresholds and the right-hand trimming branch.',
+   note='Items are small ints; only arguments valid for a list; operator forms only with set-like operands.', ref='3/C11'),
 }
 NA_REASON = 'check not built yet in this session (work in progress; see DESIGN.md section 3 for the planned monitor)'
 def main():
